@@ -80,6 +80,8 @@ def check_case(case):
     content = dec_content(case['content'])
     kw = dict(case['kw'])
     fn = getattr(segno, case['fn'])
+    if case['fn'] == 'make_sequence':
+        return check_sequence(fn, content, kw)
     try:
         qr = call(fn, content, **kw)
     except Refused:
@@ -130,8 +132,65 @@ def check_case(case):
     return Outcome(devs, labels, True)
 
 
+def check_sequence(fn, content, kw):
+    """Every symbol of a Structured Append sequence is a returned symbol: its level obeys the same rules
+    (the content of a symbol is its chunk together with the Structured Append header)."""
+    try:
+        seq = call(lambda: list(fn(content, **kw)))
+    except Refused:
+        return Outcome((), ('refused',), False, True)
+    except Crash as ex:
+        return Outcome([Dev('C05/crash-' + ex.key, str(ex))], ('crash',), True)
+    req = kw.get('error')
+    req = req.upper() if isinstance(req, str) else None
+    floor = req or 'L'
+    boost = kw.get('boost_error', True)
+    devs = []
+    labels = ['sequence', 'boost' if boost else 'no-boost', 'seq-symbols-%s' % ('1' if len(seq) == 1 else 'n')]
+    for i, qr in enumerate(seq):
+        d, dd = decode_symbol('C05', qr)
+        devs += dd
+        if d is None:
+            continue
+        v, lvl = d['version'], d['level']
+        if qr.error != lvl:
+            devs.append(Dev('C05/meta-error', 'symbol %d reports %r, format bits say %r' % (i, qr.error, lvl)))
+        if ORD[lvl] < ORD[floor]:
+            devs.append(Dev('C05/level-below-request', 'symbol %d: requested %r, symbol has %r' % (i, req, lvl)))
+        if not boost:
+            if lvl != floor:
+                devs.append(Dev('C05/boost-off-level-changed', 'symbol %d of a sequence: boost_error=False, requested %r, got %r' % (i, req, lvl)))
+        elif len(d['segments']) == 1:
+            need = d['end']
+            best = floor
+            for cand in R.levels_of(v):
+                if ORD[cand] > ORD[floor] and need <= R.data_capacity_bits(v, cand):
+                    best = cand
+            if lvl != best:
+                devs.append(Dev('C05/not-highest-level', 'symbol %d of %d (%s) uses %d bits: highest fitting level is %r, got %r (requested %r)'
+                                % (i, len(seq), v, need, best, lvl, req)))
+            labels.append('boosted' if ORD[lvl] > ORD[floor] else 'not-boostable')
+    return Outcome(devs, labels, True)
+
+
+def sequence_cases(tier):
+    cases = []
+    for mode, unit in (('numeric', '1234567890'), ('alphanumeric', 'ABC DEF$%'), ('byte', 'abcdefgh')):
+        for n in range(2, 120 if tier == 'quick' else 700):
+            text = (unit * (n // len(unit) + 1))[:n]
+            for ci, kw in enumerate(({'symbol_count': 2}, {'symbol_count': 3}, {'version': 1}, {'version': 2, 'error': 'M'},
+                                     {'symbol_count': 4, 'error': 'Q'}, {'symbol_count': 2, 'boost_error': False, 'error': 'M'},
+                                     {'version': 1, 'boost_error': False}, {'symbol_count': 5, 'error': 'H'})):
+                if 'version' in kw and n > 150:
+                    continue  # keeps clear of the 16 symbol limit (known finding K3 of C08)
+                if (n + ci) % 2 and tier == 'quick' and n > 40:
+                    continue
+                cases.append({'fn': 'make_sequence', 'content': enc_content(text), 'kw': dict(kw, mask=0), 'enum': True})
+    return cases
+
+
 def required_labels(tier):
-    return ['boosted', 'not-boostable', 'no-boost', 'boost', 'req-None', 'req-H', 'M1', 'M2', 'M3', 'M4', 'multi-part']
+    return ['boosted', 'not-boostable', 'no-boost', 'boost', 'req-None', 'req-H', 'M1', 'M2', 'M3', 'M4', 'multi-part', 'sequence', 'seq-symbols-n']
 
 
 def phases(tier, seed):
@@ -139,5 +198,7 @@ def phases(tier, seed):
     return [
         Enum('levels', lambda: level_cases(tier), exhaustive=True,
              note='exact-fit lengths of every level of the listed versions x requested level x boost x version requested'),
+        Enum('sequences', lambda: sequence_cases(tier), exhaustive=False,
+             note='every symbol of Structured Append sequences: content lengths 2..119 (thorough: ..699) x 3 modes x 8 option sets'),
         Search('free', gens.make_cases(big=0.05), n),
     ]
